@@ -292,6 +292,95 @@ def run(ctx):
                     compare("C11|finite-difference|%s" % node.shape(), "k_grad differs from central differences of the kernel value",
                             KG[i, j, c], fd1, tol, dict(rp, x=X[i].tolist(), y=Y[j].tolist(), c=c, h=h), extra=1e-6 * abs(fd1))
 
+    # ---------------------------------------------------------------- D. histories
+    # (a) active_dims given as a 0/1 index list and as a boolean mask of the same length denote different columns
+    #     ([0, 1] = both, [False, True] = the second): one kernel's gradient must not depend on which other kernels'
+    #     gradients were evaluated before in this process
+    n_hist = 0
+    for first, second in (([0, 1], [False, True]), ([False, True], [0, 1]), ([1, 0], [True, False]), ([True, False], [1, 0])):
+        for hname in ("Matern52", "ExpQuad"):
+            def mk(adv, hname=hname):
+                is_mask = isinstance(adv[0], bool)
+                return W.Node("base", W.AD("mask" if is_mask else "list", np.array(adv) if is_mask else list(adv), "-"), name=hname, ls=1.25)
+            A_, B_ = mk(first), mk(second)
+            Xh, Yh = W.point_sets(rng, 2)
+            jXh, jYh = jnp.asarray(Xh), jnp.asarray(Yh)
+            rp = {"kernel": B_.describe(), "evaluated_before_in_this_process": A_.describe(), "x_rows": Xh.tolist(), "y_rows": Yh.tolist()}
+            try:
+                np.asarray(A_.build().k_grad(jXh)(jYh))
+                KGh = np.asarray(B_.build().k_grad(jXh)(jYh))
+            except Exception as e:  # noqa
+                ctx.violation("C11|history|active_dims-forms|exception", "k_grad raised %s after a kernel with an equal-looking active_dims was used" % type(e).__name__,
+                              dict(rp, error=repr(e)[:200]))
+                continue
+            n_hist += 1
+            act = set(B_.ad.index(2))
+            for i in range(Xh.shape[0]):
+                for j in range(Yh.shape[0]):
+                    v, t, g, gt, ok = B_.oracle(Xh[i], Yh[j], grad=True)
+                    for c in range(2):
+                        if c not in act and KGh[i, j, c] != 0.0:
+                            ctx.violation("C11|history|active_dims-forms|inactive-nonzero", "non-zero gradient in an inactive dimension after a kernel with an "
+                                          "equal-looking active_dims was used", dict(rp, x=Xh[i].tolist(), y=Yh[j].tolist(), c=c, observed=float(KGh[i, j, c])))
+                        elif ok and np.isfinite(g[c]) and np.isfinite(gt[c]) and np.isfinite(KGh[i, j, c]):
+                            compare("C11|history|active_dims-forms|gradient", "k_grad entry differs from the derivative of the documented formula after a kernel "
+                                    "with an equal-looking active_dims was used", KGh[i, j, c], g[c], gt[c], dict(rp, x=Xh[i].tolist(), y=Yh[j].tolist(), c=c))
+    # (b) NumPy inputs refilled in place between two evaluations: the gradient is that at the buffer's CURRENT rows
+    for hnode in (W.Node("base", W.make_ad("none", rng, 3), name="Matern52", ls=0.8),
+                  W.Node("add", W.make_ad("none", rng, 3), left=W.Node("base", W.make_ad("none", rng, 3), name="ExpQuad", ls=1.5),
+                         right=W.Node("base", W.make_ad("none", rng, 3), name="Matern32", ls=0.6)),
+                  W.Node("base", W.make_ad("list", rng, 3), name="RatQuad", ls=1.1, alpha=2.0)):
+        Xh, Yh = W.point_sets(rng, 3)
+        covh = hnode.build()
+        ybuf, xbuf = np.array(Yh, copy=True), np.array(Xh, copy=True)
+        try:
+            fgrad = covh.k_grad(xbuf)
+            fgrad(ybuf)
+            Y2 = np.array(Yh[::-1], copy=True) + 0.125
+            ybuf[...] = Y2
+            got_closure, got_new = np.asarray(fgrad(ybuf)), np.asarray(covh.k_grad(xbuf)(ybuf))
+            want = np.asarray(covh.k_grad(np.array(Xh, copy=True))(np.array(Y2, copy=True)))
+            X2 = np.array(Xh[::-1], copy=True) - 0.25
+            xbuf[...] = X2
+            got_x = np.asarray(covh.k_grad(xbuf)(ybuf))
+            want_x = np.asarray(covh.k_grad(np.array(X2, copy=True))(np.array(Y2, copy=True)))
+        except Exception as e:  # noqa
+            ctx.violation("C11|history|buffer-reuse|exception", "k_grad raised %s on refilled NumPy buffers" % type(e).__name__,
+                          {"kernel": hnode.describe(), "error": repr(e)[:200]})
+            continue
+        n_hist += 1
+        for what, a_, b_ in (("y refilled, same closure", got_closure, want), ("y refilled, new closure", got_new, want), ("x refilled", got_x, want_x)):
+            if not np.array_equal(a_, b_, equal_nan=True):
+                ctx.violation("C11|history|buffer-reuse", "k_grad on a NumPy buffer refilled in place differs from k_grad on a fresh copy of the same rows",
+                              {"kernel": hnode.describe(), "case": what, "x_first": Xh.tolist(), "y_first": Yh.tolist(),
+                               "sequence": "f = cov.k_grad(xbuf); f(ybuf); ybuf[...] = y2; f(ybuf), cov.k_grad(xbuf)(ybuf) vs cov.k_grad(x.copy())(y2.copy()); then xbuf[...] = x2",
+                               "max_difference": float(np.nanmax(np.abs(a_ - b_)))})
+                break
+    # (c) hyper-parameters reassigned after a first evaluation: the gradient is that of the kernel as it is NOW
+    import mellon.cov as mcov_
+    Xh, Yh = W.point_sets(rng, 3)
+    jXh, jYh = jnp.asarray(Xh), jnp.asarray(Yh)
+    for what_, mk_, change_, fresh_ in (
+            ("ls", lambda: mcov_.Matern52(0.9), lambda k_: setattr(k_, "ls", 2.3), lambda: mcov_.Matern52(2.3)),
+            ("alpha", lambda: mcov_.RatQuad(1.0, 1.2), lambda k_: setattr(k_, "alpha", 3.0), lambda: mcov_.RatQuad(3.0, 1.2)),
+            ("active_dims", lambda: mcov_.ExpQuad(1.1, active_dims=[0, 1]), lambda k_: setattr(k_, "active_dims", [1, 2]), lambda: mcov_.ExpQuad(1.1, active_dims=[1, 2])),
+            ("ls of a summand", lambda: mcov_.Matern32(1.0) + mcov_.ExpQuad(1.5), lambda k_: setattr(k_.right, "ls", 0.5), lambda: mcov_.Matern32(1.0) + mcov_.ExpQuad(0.5))):
+        try:
+            k_ = mk_()
+            np.asarray(k_.k_grad(jXh)(jYh))
+            change_(k_)
+            got, want = np.asarray(k_.k_grad(jXh)(jYh)), np.asarray(fresh_().k_grad(jXh)(jYh))
+        except Exception as e:  # noqa
+            ctx.violation("C11|history|reassigned|exception", "k_grad raised %s after %s was reassigned" % (type(e).__name__, what_), {"error": repr(e)[:200]})
+            continue
+        n_hist += 1
+        if not np.array_equal(got, want, equal_nan=True):
+            ctx.violation("C11|history|reassigned-%s" % what_.split()[0], "k_grad evaluated again after %s was reassigned is not the gradient of the kernel as it is now" % what_,
+                          {"kernel_now": repr(k_), "changed": what_, "x_rows": Xh.tolist(), "y_rows": Yh.tolist(),
+                           "sequence": "k.k_grad(x)(y); <attribute reassigned>; k.k_grad(x)(y) vs the same call on a freshly constructed kernel",
+                           "max_difference": float(np.nanmax(np.abs(got - want)))})
+    bump("history/%d" % n_hist)
+
     phase["implementation+oracle"] = round(time.time() - t0, 1)
     t0 = time.time()
     proved = 0
